@@ -7,7 +7,7 @@
      (nextdue start iv due t)                -> deadline
    events: (0 i t iv) create  (1 i t due v) tick  (2 i t o) end, o = 0 true 1 false 2 raised
            (3 j t r) cancel  (4 k v) redef  (5) idle
-   actions: 0 none, 1 cancel arg, 2 redefine arg, 3 raise;  external kinds: 0 cancel idx, 1 redefine idx *)
+   actions: 0 none, 1 cancel arg, 2 redefine arg, 3 raise, 4 create the next timer of the pool, 5 unbind callback name arg; ret = code of the returned value (retv_of);  external kinds: 0 cancel idx, 1 redefine idx, 2 unbind idx *)
 From Coq Require Import ZArith List String.
 From KB Require Import Sx.
 From C15 Require Import Generated Model Spec.
@@ -17,11 +17,20 @@ Open Scope Z_scope.
 Definition zb (z : Z) : bool := negb (Z.eqb z 0).
 Definition zn (z : Z) : nat := Z.to_nat z.
 
+(* return-value codes of the harness (harness/c15.py RETVALS) *)
+Definition retv_of (r : Z) : retv :=
+  if Z.eqb r 0 then RNum 0 else if Z.eqb r 1 then RNum 1 else if Z.eqb r 2 then RNum 2 else if Z.eqb r 3 then RNum (-1)
+  else if Z.eqb r 4 then RNum 0 else if Z.eqb r 5 then RNum 3
+  else if Z.eqb r 6 then RStr 0 else if Z.eqb r 7 then RStr 1
+  else if Z.eqb r 8 then RList 0 false else if Z.eqb r 9 then RList 1 false else if Z.eqb r 10 then RList 1 true
+  else if Z.eqb r 11 then RList 2 true else if Z.eqb r 12 then RList 2 false else ROther.
+
 Definition step_of_sx (x : sx) : option step :=
   match x with
   | SL [SZ d; SZ r; SZ a; SZ g] =>
-      Some (mk_step d (zb r)
-              (if Z.eqb a 1 then ACancel (zn g) else if Z.eqb a 2 then ARedef (zn g) else if Z.eqb a 3 then ARaise else ANone))
+      Some (mk_step d (retv_of r)
+              (if Z.eqb a 1 then ACancel (zn g) else if Z.eqb a 2 then ARedef (zn g) else if Z.eqb a 3 then ARaise
+               else if Z.eqb a 4 then ASpawn else if Z.eqb a 5 then AUndef (zn g) else ANone))
   | _ => None
   end.
 
@@ -38,9 +47,15 @@ Definition tspec_of_sx (x : sx) : option tspec :=
   | _ => None
   end.
 
+Definition pool_of_sx (x : sx) : option (Z * list step) :=
+  match x with
+  | SL [SZ iv; SL steps] => match all_some step_of_sx steps with Some ss => Some (iv, ss) | None => None end
+  | _ => None
+  end.
+
 Definition ext_of_sx (x : sx) : option (Z * ext) :=
   match x with
-  | SL [SZ t; SZ k; SZ i] => Some (t, if Z.eqb k 0 then XCancel (zn i) else XRedef (zn i))
+  | SL [SZ t; SZ k; SZ i] => Some (t, if Z.eqb k 0 then XCancel (zn i) else if Z.eqb k 1 then XRedef (zn i) else XUndef (zn i))
   | _ => None
   end.
 
@@ -72,14 +87,14 @@ Definition zkind_of (z : Z) : zkind :=
 
 Definition dispatch (x : sx) : sx :=
   match x with
-  | SL [SS t; SL [SZ g; SZ c; SZ m; SZ r]; SL [SZ res; SZ lifo]; SZ t0; SL xs; SL ts; SL lats; SZ fuel] =>
+  | SL [SS t; SL [SZ g; SZ c; SZ m; SZ tr; SZ r]; SL [SZ res; SZ lifo]; SZ t0; SL xs; SL ts; SL pool; SL lats; SZ fuel] =>
       if is_tag "run" t then
-        match all_some ext_of_sx xs, all_some tspec_of_sx ts, sx_get_zs lats with
-        | Some xs', Some ts', Some lats' =>
-            let '(w, tr) := simulate (mk_flags (zb g) (zb c) (zb m) (zb r)) (mk_config res (zb lifo)) t0 xs' ts' lats' (zn fuel) in
+        match all_some ext_of_sx xs, all_some tspec_of_sx ts, all_some pool_of_sx pool, sx_get_zs lats with
+        | Some xs', Some ts', Some pool', Some lats' =>
+            let '(w, tr) := simulate (mk_flags (zb g) (zb c) (zb m) (zb tr) (zb r)) (mk_config res (zb lifo)) t0 xs' ts' pool' lats' (zn fuel) in
             SL [sx_w "ok"; SL (map sx_event tr);
                 SL (map (fun i => sx_bool (negb (is_none (t_delegate (w_tm w i))))) (seq 0 (w_nt w)))]
-        | _, _, _ => sx_err "run"
+        | _, _, _, _ => sx_err "run"
         end
       else sx_err "op"
   | SL [SS t; SZ strict; SZ res; SZ t0; SL evs] =>
@@ -100,7 +115,7 @@ Definition dispatch (x : sx) : sx :=
         SZ (match timer_validate y (zkind_of z) with TRNeg => 0 | TRCall => 1 | TRNoFn => 2 | TROk => 3 end)
       else sx_err "op"
   | SL [SS t] =>
-      if is_tag "flags" t then SL [sx_bool (f_guard src_flags); sx_bool (f_clear src_flags); sx_bool (f_mono src_flags); sx_bool (f_resolve src_flags)]
+      if is_tag "flags" t then SL [sx_bool (f_guard src_flags); sx_bool (f_clear src_flags); sx_bool (f_mono src_flags); sx_bool (f_truth src_flags); sx_bool (f_resolve src_flags)]
       else sx_err "op"
   | _ => sx_err "shape"
   end.
